@@ -32,20 +32,22 @@ def expected(cases, atm, atmcol):
     return out, r
 
 
-def make_geo(kind, nlay, surf, atm, conv, angle, order, offmid=False, via=None):
+def make_geo(kind, nlay, surf, atm, conv, angle, order, offmid=False, via=None, moved=False):
     m = core.repo_modules("mulgrids")
     atm0, atm = atm, (atm if via is None else via)
+    # moved: the geometry is built somewhere else (higher up and aside) and translated into place before conversion
+    org = [30.0, -20.0, 40.0] if moved else [0.0, 0.0, 0.0]
     with core.quiet():
         if kind == "1x2":
-            geo = m.mulgrid().rectangular([10.0, 20.0], [10.0], [10.0] * nlay, convention=conv, atmos_type=atm, block_order=order)
+            geo = m.mulgrid().rectangular([10.0, 20.0], [10.0], [10.0] * nlay, convention=conv, origin=org, atmos_type=atm, block_order=order)
         elif kind == "2x2":
-            geo = m.mulgrid().rectangular([10.0, 20.0], [20.0, 10.0], [10.0, 20.0, 10.0][:nlay], convention=conv, atmos_type=atm, block_order=order)
+            geo = m.mulgrid().rectangular([10.0, 20.0], [20.0, 10.0], [10.0, 20.0, 10.0][:nlay], convention=conv, origin=org, atmos_type=atm, block_order=order)
         elif kind == "L":
-            geo = m.mulgrid().rectangular([10.0, 10.0], [10.0, 10.0], [10.0] * nlay, convention=conv, atmos_type=atm, block_order=order)
+            geo = m.mulgrid().rectangular([10.0, 10.0], [10.0, 10.0], [10.0] * nlay, convention=conv, origin=org, atmos_type=atm, block_order=order)
             geo.delete_column(geo.columnlist[-1].name)
             geo.delete_orphans()
         elif kind == "tri":
-            geo = m.mulgrid().rectangular([10.0, 10.0], [10.0], [10.0] * nlay, convention=conv, atmos_type=atm, block_order=order)
+            geo = m.mulgrid().rectangular([10.0, 10.0], [10.0], [10.0] * nlay, convention=conv, origin=org, atmos_type=atm, block_order=order)
             geo.split_column(geo.columnlist[0].name, geo.columnlist[0].node[0].name)
         geo.permeability_angle = angle
         if offmid:
@@ -55,6 +57,8 @@ def make_geo(kind, nlay, surf, atm, conv, angle, order, offmid=False, via=None):
         for c, s in zip(geo.columnlist, surf):
             c.surface = geo.layerlist[0].bottom + s * H
             geo.set_column_num_layers(c)
+        if moved:
+            geo.translate(np.array([-org[0], -org[1], -org[2]]))
         geo.setup_block_name_index()
         geo.setup_block_connection_name_index()
         if via is not None:
@@ -288,12 +292,13 @@ def run(tier):
                     angle = rng.choice([0.0, 0.0, 30.0, 90.0])
                     offmid = rng.random() < 0.25
                     via = rng.choice([None, None, (atm + 1) % 3, (atm + 2) % 3])
-                    cases[atm].append((kind, nlay, surf, atm, conv, angle, order, offmid, via))
+                    moved = rng.random() < 0.3
+                    cases[atm].append((kind, nlay, surf, atm, conv, angle, order, offmid, via, moved))
     n = 0
     for atm in (0, 1, 2):
         geos, states = [], []
-        for (kind, nlay, surf, a, conv, angle, order, offmid, via) in cases[atm]:
-            geo = make_geo(kind, nlay, surf, a, conv, angle, order, offmid, via)
+        for (kind, nlay, surf, a, conv, angle, order, offmid, via, moved) in cases[atm]:
+            geo = make_geo(kind, nlay, surf, a, conv, angle, order, offmid, via, moved)
             ad = mgmodel.Adapter(geo)
             st = ad.project()
             st["lctr2"] = [int(round(2 * l.centre / H)) for l in geo.layerlist]
@@ -306,7 +311,8 @@ def run(tier):
         rep.add_tlc("GeoToGrid AtmType=%d: expected blocks, connections, volumes, areas, distances for %d geometries" % (atm, len(states)), r)
         for geo, exp, c in zip(geos, exps, cases[atm]):
             desc = {"mesh": c[0], "layers": c[1], "surface_offsets": list(c[2]), "atmos_type": c[3], "convention": c[4],
-                    "permeability_angle": c[5], "block_order": c[6], "off_mid_layer_centre": c[7], "atmosphere_type_assigned_from": c[8]}
+                    "permeability_angle": c[5], "block_order": c[6], "off_mid_layer_centre": c[7], "atmosphere_type_assigned_from": c[8],
+                    "built_elsewhere_and_translated": c[9]}
             # the atmosphere column name depends on the convention: the spec's "ATM" stands for it
             exp = json.loads(json.dumps(exp).replace('"ATM"', json.dumps(geo.atmosphere_column_name))) if atm == 0 else exp
             rep.case(json.dumps(desc, sort_keys=True))
